@@ -1,10 +1,14 @@
 //! C01: save then load returns the same document (bounded stand-in for the reader half; complete for f32 in thorough).
+//! c01-roundtrip enumerates, besides the documents of gen::docs and the stream-body family: the transport (how many bytes the
+//! destination of save_to accepts / the source of load_from delivers per call), the nesting depth of arrays and dictionaries,
+//! and histories of save/load cycles on one thread (C01 is unconditional: it holds whatever was saved and loaded before).
 use crate::c03::{obj_json, obj_from_json, spec_from_json, spec_json};
 use crate::common::*;
 use crate::gen::*;
 use lopdf::{Document, Object, StringFormat};
 use rayon::prelude::*;
 use serde_json::{json, Value};
+use std::io::{Read, Write};
 
 /// does `file` load to a document equal to `orig` (C01 equality)?
 pub fn loads_to(file: &[u8], orig: &Document) -> Result<(), String> {
@@ -27,19 +31,65 @@ pub fn compare(orig: &Document, loaded: &Document) -> Result<(), String> {
     Ok(())
 }
 
-pub fn check_doc(spec: &DocSpec) -> Result<(), (String, String)> {
-    let orig = build(spec);
-    let mut d = build(spec);
-    let mut out = vec![];
-    match guarded(std::panic::AssertUnwindSafe(|| d.save_to(&mut out))) { Ok(Ok(())) => {}, other => return Err(("save".into(), format!("{:?}", other.map(|x| x.map_err(|e| e.to_string()))))) }
-    loads_to(&out, &orig).map_err(|e| ("load-equals-saved".to_string(), e))?;
+/// A destination for `save_to` that accepts, on its i-th `write` call, at most `schedule[i mod len]` bytes (a pipe, a socket,
+/// an encoder); everything it accepted is kept in `bytes`.
+pub struct ShortSink { schedule: Vec<usize>, calls: usize, pub bytes: Vec<u8> }
+
+impl Write for ShortSink {
+    fn write(&mut self, buf: &[u8]) -> std::io::Result<usize> {
+        let n = buf.len().min(self.schedule[self.calls % self.schedule.len()].max(1));
+        self.calls += 1;
+        self.bytes.extend_from_slice(&buf[..n]);
+        Ok(n)
+    }
+    fn flush(&mut self) -> std::io::Result<()> { Ok(()) }
+}
+
+/// A source for `load_from` that hands out, on its i-th `read` call, at most `schedule[i mod len]` bytes.
+struct ShortSource<'a> { schedule: &'a [usize], calls: usize, data: &'a [u8] }
+
+impl Read for ShortSource<'_> {
+    fn read(&mut self, buf: &mut [u8]) -> std::io::Result<usize> {
+        let n = buf.len().min(self.data.len()).min(self.schedule[self.calls % self.schedule.len()].max(1));
+        self.calls += 1;
+        buf[..n].copy_from_slice(&self.data[..n]);
+        self.data = &self.data[n..];
+        Ok(n)
+    }
+}
+
+/// save `d`; the bytes that reached the destination. `schedule` empty: a Vec (takes every buffer whole); otherwise a ShortSink.
+fn save_via(d: &mut Document, schedule: &[usize]) -> Result<Vec<u8>, String> {
+    let mut sink = ShortSink { schedule: if schedule.is_empty() { vec![usize::MAX] } else { schedule.to_vec() }, calls: 0, bytes: vec![] };
+    let mut plain = vec![];
+    let r = if schedule.is_empty() { guarded(std::panic::AssertUnwindSafe(|| d.save_to(&mut plain))) } else { guarded(std::panic::AssertUnwindSafe(|| d.save_to(&mut sink))) };
+    match r { Ok(Ok(())) => Ok(if schedule.is_empty() { plain } else { sink.bytes }), Ok(Err(e)) => Err(format!("save failed: {}", e)), Err(p) => Err(format!("save panicked: {}", p)) }
+}
+
+/// load `file`: from memory (`schedule` empty), or through `load_from` from a source that delivers it in pieces
+fn load_via(file: &[u8], schedule: &[usize]) -> Result<Document, String> {
+    let r = if schedule.is_empty() { guarded(|| Document::load_mem(file)) } else { guarded(|| Document::load_from(ShortSource { schedule, calls: 0, data: file })) };
+    match r { Err(p) => Err(format!("load panicked: {}", p)), Ok(Err(e)) => Err(format!("load failed: {}", e)), Ok(Ok(d)) => Ok(d) }
+}
+
+/// C01 for one document value and one transport: two save/load cycles, each load compared with the ORIGINAL in-memory document
+pub fn check_document(orig: &Document, schedule: &[usize]) -> Result<(), (String, String)> {
+    let mut d = orig.clone();
+    let out = save_via(&mut d, schedule).map_err(|e| ("save".to_string(), e))?;
+    let mut l1 = load_via(&out, schedule).map_err(|e| ("load-equals-saved".to_string(), e))?;
+    compare(orig, &l1).map_err(|e| ("load-equals-saved".to_string(), e))?;
+    if !schedule.is_empty() {
+        // the same file read from memory: what reached the sink is the document, however it is read back
+        loads_to(&out, orig).map_err(|e| ("load-equals-saved".to_string(), e))?;
+    }
     // repeat the cycle on the loaded document
-    let mut l1 = Document::load_mem(&out).unwrap();
-    let mut out2 = vec![];
-    l1.save_to(&mut out2).map_err(|e| ("second-save".to_string(), e.to_string()))?;
-    loads_to(&out2, &orig).map_err(|e| ("second-cycle".to_string(), e))?;
+    let out2 = save_via(&mut l1, schedule).map_err(|e| ("second-save".to_string(), e))?;
+    let l2 = load_via(&out2, schedule).map_err(|e| ("second-cycle".to_string(), e))?;
+    compare(orig, &l2).map_err(|e| ("second-cycle".to_string(), e))?;
     Ok(())
 }
+
+pub fn check_doc(spec: &DocSpec) -> Result<(), (String, String)> { check_document(&build(spec), &[]) }
 
 /// The six PDF white-space bytes (ISO 32000-1 table 1): the bytes a reader may skip around the `stream`/`endstream` keywords.
 const WS: [u8; 6] = [0x00, 0x09, 0x0A, 0x0C, 0x0D, 0x20];
@@ -112,11 +162,194 @@ fn stream_diag(spec: &DocSpec, sid: (u32, u16), body: &[u8]) -> (String, String)
     }
 }
 
+/// The nesting dimension of the quantifier ("any mix of the ten object kinds nested arbitrarily"): one document whose
+/// innermost leaf (the integer 7) is enclosed by exactly `depth` arrays / dictionaries in the saved file.
+#[derive(Clone, Copy, Debug, PartialEq)]
+pub struct Nest {
+    pub depth: usize,
+    /// 0 arrays only, 1 dictionaries only, 2 alternating (outermost an array), 3 alternating (outermost a dictionary)
+    pub shape: u8,
+    /// 0 the only indirect object; 1 an indirect object between two others (sparse ids, generation 2); 2 the value of a trailer
+    /// entry (the trailer dictionary is level 1); 3 the value of an entry of a stream's dictionary (that dictionary is level 1)
+    pub place: u8,
+    pub xs: bool,
+}
+
+const SHAPES: [&str; 4] = ["arrays", "dictionaries", "arrays and dictionaries alternating (outermost an array)", "dictionaries and arrays alternating (outermost a dictionary)"];
+const PLACES: [&str; 4] = ["as the only indirect object", "as an indirect object between two others", "inside the trailer dictionary", "inside a stream dictionary"];
+
+/// `levels` containers around the leaf; every container has a sibling after the nested value, so that the reader has to
+/// continue in each enclosing container after the inner one closes
+fn nested(levels: usize, shape: u8) -> Object {
+    let mut o = Object::Integer(7);
+    for i in (0..levels).rev() {
+        let array = match shape { 0 => true, 1 => false, 2 => i % 2 == 0, _ => i % 2 == 1 };
+        o = if array { Object::Array(vec![Object::Integer(i as i64), o, name(b"e")]) } else { Object::Dictionary(dict(vec![(b"K", o), (b"Z", Object::Integer(i as i64))])) };
+    }
+    o
+}
+
+impl Nest {
+    pub fn document(&self) -> Document {
+        let one = |o: Object| DocSpec { objects: vec![((1, 0), o)], xref_stream: self.xs, version: "1.5".into(), extra_trailer: false, max_id_slack: 0 };
+        match self.place {
+            0 => build(&one(nested(self.depth, self.shape))),
+            1 => build(&DocSpec { objects: vec![((1, 0), Object::Integer(7)), ((3, 2), nested(self.depth, self.shape)), ((6, 0), Object::Dictionary(dict(vec![(b"Next", Object::Reference((3, 2)))])))], xref_stream: self.xs, version: "1.7".into(), extra_trailer: true, max_id_slack: 1 }),
+            2 => { let mut d = build(&one(Object::Dictionary(dict(vec![(b"Kind", name(b"Plain"))])))); d.trailer.set("Deep", nested(self.depth - 1, self.shape)); d }
+            _ => build(&one(Object::Stream(lopdf::Stream::new(dict(vec![(b"Deep", nested(self.depth - 1, self.shape))]), b"q Q".to_vec())))),
+        }
+    }
+    /// the same with the place first (failures are grouped by the beginning of their text)
+    fn describe_place_first(&self) -> String { format!("{}: leaf enclosed by {} containers, {}, xref {}", PLACES[self.place as usize % 4], self.depth, SHAPES[self.shape as usize % 4], if self.xs { "stream" } else { "table" }) }
+    fn describe(&self) -> String { format!("{} nested {} deep {} (xref {})", SHAPES[self.shape as usize % 4], self.depth, PLACES[self.place as usize % 4], if self.xs { "stream" } else { "table" }) }
+}
+
+/// one element of a history of save/load cycles
+#[derive(Clone)]
+pub enum Case { Nest(Nest), Spec(DocSpec) }
+
+impl Case {
+    fn document(&self) -> Document { match self { Case::Nest(n) => n.document(), Case::Spec(s) => build(s) } }
+    fn describe(&self) -> String { match self { Case::Nest(n) => n.describe(), Case::Spec(s) => { let mut t = describe(s); t.truncate(160); t } } }
+    fn to_json(&self) -> Value { match self { Case::Nest(n) => json!({"nest": {"depth": n.depth, "shape": n.shape, "place": n.place, "xs": n.xs}}), Case::Spec(s) => json!({"spec": spec_json(s)}) } }
+    fn from_json(v: &Value) -> Case {
+        if v.get("nest").is_some() { let n = &v["nest"]; Case::Nest(Nest { depth: n["depth"].as_u64().unwrap_or(1).max(1) as usize, shape: n["shape"].as_u64().unwrap_or(0) as u8, place: n["place"].as_u64().unwrap_or(0) as u8, xs: n["xs"].as_bool().unwrap_or(false) }) }
+        else { Case::Spec(spec_from_json(&v["spec"])) }
+    }
+}
+
+/// Run `f` on a thread that has not run anything before and on which ALL the work of the library happens: the only worker
+/// of a fresh one-thread rayon pool (with the `rayon` feature the reader parses indirect objects on the workers of the pool
+/// of the calling thread; a sequential build simply runs on that thread). Must be called from a thread outside any pool.
+fn on_fresh_thread<T: Send>(f: impl FnOnce() -> T + Send) -> T {
+    rayon::ThreadPoolBuilder::new().num_threads(1).build().expect("one-thread pool").install(f)
+}
+
+/// The history dimension ("remains true when the save/load cycle is repeated"; the statement is unconditional, so it holds
+/// for a document whatever was saved and loaded before): on a fresh thread, one save/load cycle for each case but the last,
+/// in order, whatever its outcome; then C01 (check_document) for the last case. The verdict is that of the last case alone.
+pub fn check_history(cases: &[Case]) -> Result<(), (String, String)> { on_fresh_thread(|| history_here(cases)) }
+
+/// the same on the current thread, after whatever that thread did before
+fn history_here(cases: &[Case]) -> Result<(), (String, String)> {
+    let (last, earlier) = match cases.split_last() { Some(x) => x, None => return Ok(()) };
+    for c in earlier {
+        let mut d = c.document();
+        if let Ok(bytes) = save_via(&mut d, &[]) { let _ = load_via(&bytes, &[]); }
+    }
+    check_document(&last.document(), &[])
+}
+
+fn history_json(cases: &[Case]) -> Value { json!({"kind": "history", "cases": cases.iter().map(|c| c.to_json()).collect::<Vec<_>>()}) }
+
+/// `jobs` evaluated by plain threads (not pool workers: each job starts its own one-thread pool and sleeps until that is done,
+/// hence more threads than cores); the results that are Some, with the index of their job, in job order
+fn run_jobs<J: Sync, R: Send>(jobs: &[J], f: impl Fn(&J) -> Option<R> + Sync) -> Vec<(usize, R)> {
+    let next = std::sync::atomic::AtomicUsize::new(0);
+    let out: std::sync::Mutex<Vec<(usize, R)>> = std::sync::Mutex::new(vec![]);
+    let workers = 4 * std::thread::available_parallelism().map(|n| n.get()).unwrap_or(4);
+    std::thread::scope(|sc| {
+        for _ in 0..workers {
+            sc.spawn(|| {
+                let mut mine = vec![];
+                loop {
+                    let i = next.fetch_add(16, std::sync::atomic::Ordering::Relaxed);
+                    if i >= jobs.len() { break; }
+                    for k in i..(i + 16).min(jobs.len()) { if let Some(r) = f(&jobs[k]) { mine.push((k, r)); } }
+                }
+                out.lock().unwrap().extend(mine);
+            });
+        }
+    });
+    let mut v = out.into_inner().unwrap();
+    v.sort_by_key(|(k, _)| *k);
+    v
+}
+
+/// One failing history of `run_lanes`. `confirmed` is a history that fails in the same way when run on a fresh thread (what a
+/// replay does): the enumerated history itself if that is enough, otherwise the shortest suffix (doubling lengths) of everything
+/// its thread had run that does, otherwise (`reproduced` false) everything its thread had run. None for an `expected` failure.
+struct LaneFail { job: usize, confirmed: Option<Vec<Case>>, reproduced: bool, err: (String, String) }
+
+/// Thread creation costs several times what a history costs, so the many histories are not given a thread each: every core
+/// gets a long-lived thread (the only worker of a one-thread pool, see on_fresh_thread) and runs its share of the histories
+/// back to back on it. C01 is unconditional, so every history must still end well - now after all earlier histories of its
+/// thread as well, which only lengthens the histories covered. A failure is then confirmed on a fresh thread (see LaneFail),
+/// and the thread on which it happened is abandoned for a new one. `expected(job)` marks histories whose last document
+/// fails on a fresh thread by itself (already reported there); their failures are counted (second result), only the first few
+/// are returned, unconfirmed, and they do not retire the thread. A thread remembers the last LOG_MAX cycles it ran.
+fn run_lanes<J: Sync>(jobs: &[J], hist: impl Fn(&J) -> Vec<Case> + Sync, expected: impl Fn(&J) -> bool + Sync) -> (Vec<LaneFail>, usize) {
+    const LOG_MAX: usize = 8192;
+    let next = std::sync::atomic::AtomicUsize::new(0);
+    let n_expected = std::sync::atomic::AtomicUsize::new(0);
+    let out: std::sync::Mutex<Vec<LaneFail>> = std::sync::Mutex::new(vec![]);
+    let workers = std::thread::available_parallelism().map(|n| n.get()).unwrap_or(4);
+    std::thread::scope(|sc| {
+        for _ in 0..workers {
+            sc.spawn(|| {
+                let mut mine: Vec<LaneFail> = vec![];
+                let mut pending: Vec<usize> = vec![];
+                let mut exhausted = false;
+                let mut kept_expected = 0usize;   // jobs come in increasing order, so the three first expected failures overall are among each thread's first three
+                while !exhausted || !pending.is_empty() {
+                    // one lane: runs until the jobs are exhausted or an unexpected failure happens on it
+                    let (stop, expected_fails) = on_fresh_thread(|| {
+                        let mut log: Vec<Case> = vec![];
+                        let mut ef: Vec<LaneFail> = vec![];
+                        loop {
+                            if pending.is_empty() {
+                                let i = next.fetch_add(32, std::sync::atomic::Ordering::Relaxed);
+                                if i >= jobs.len() { exhausted = true; return (None, ef); }
+                                pending = (i..(i + 32).min(jobs.len())).rev().collect();
+                            }
+                            let k = pending.pop().unwrap();
+                            let h = hist(&jobs[k]);
+                            let r = history_here(&h);
+                            log.extend(h.iter().cloned());
+                            if log.len() > 2 * LOG_MAX { log.drain(..log.len() - LOG_MAX); }
+                            if let Err(e) = r {
+                                if expected(&jobs[k]) { n_expected.fetch_add(1, std::sync::atomic::Ordering::Relaxed); kept_expected += 1; if kept_expected <= 3 { ef.push(LaneFail { job: k, confirmed: None, reproduced: true, err: e }); } } else { return (Some((k, h.len(), log, e)), ef); }
+                            }
+                        }
+                    });
+                    mine.extend(expected_fails);
+                    if let Some((k, hlen, log, e)) = stop {
+                        // outside any pool: look for the shortest suffix of the lane's sequence that fails on a fresh thread
+                        let mut n = hlen;
+                        let mut found = None;
+                        loop {
+                            let suffix = &log[log.len() - n.min(log.len())..];
+                            if check_history(suffix).is_err() { found = Some(suffix.to_vec()); break; }
+                            if n >= log.len() { break; }
+                            n *= 2;
+                        }
+                        let reproduced = found.is_some();
+                        mine.push(LaneFail { job: k, confirmed: Some(found.unwrap_or(log)), reproduced, err: e });
+                    }
+                }
+                out.lock().unwrap().extend(mine);
+            });
+        }
+    });
+    let mut v = out.into_inner().unwrap();
+    v.sort_by_key(|f| f.job);
+    let mut seen = 0;
+    v.retain(|f| f.confirmed.is_some() || { seen += 1; seen <= 3 });
+    (v, n_expected.into_inner())
+}
+
+/// write/read granularities of the transport dimension: each is a cyclic schedule of "at most n bytes per call"
+fn schedules(thorough: bool) -> Vec<Vec<usize>> {
+    let mut v: Vec<Vec<usize>> = vec![vec![1], vec![2], vec![3], vec![7], vec![64], vec![1, 2, 3, 5, 8, 13]];
+    if thorough { v.extend([vec![4], vec![5], vec![6], vec![8], vec![9], vec![13], vec![19], vec![512], vec![4096], vec![1000, 1]]); }
+    v
+}
+
 pub fn roundtrip(thorough: bool) -> Report {
     let mut rep = Report::new(if thorough {
-        "all documents of gen::docs (both xref formats); plus the stream-body family: every stream body of 0..=2 bytes over all 256 byte values, alone in a document; every body prefix++core++suffix with prefix in all strings of length<=3 and suffix in all strings of length<=2 over {NUL,TAB,LF,FF,CR,SP,'x',0xFF} and core in {empty, content stream, text containing endstream/endobj, binary}, and runs of 4..=64 equal white-space bytes before/after each core, each alone and between two other objects (sparse ids, generation 2, non-empty stream dictionary); all x both xref formats; two save/load cycles each"
+        "all documents of gen::docs (both xref formats); plus the stream-body family: every stream body of 0..=2 bytes over all 256 byte values, alone in a document; every body prefix++core++suffix with prefix in all strings of length<=3 and suffix in all strings of length<=2 over {NUL,TAB,LF,FF,CR,SP,'x',0xFF} and core in {empty, content stream, text containing endstream/endobj, binary}, and runs of 4..=64 equal white-space bytes before/after each core, each alone and between two other objects (sparse ids, generation 2, non-empty stream dictionary); all x both xref formats; two save/load cycles each; plus the transport dimension: every document of gen::docs (quick set) saved to a destination that accepts at most s[i mod len] bytes on its i-th write call and loaded both from memory and through load_from from a source delivering the same pieces, s in {[1]..[9],[13],[19],[64],[512],[4096],[1,2,3,5,8,13],[1000,1]}; plus the nesting dimension: the leaf 7 enclosed by d = 1..=64 containers, shapes {arrays, dictionaries, alternating from an array, alternating from a dictionary} x places {only indirect object, indirect object between two others, trailer entry, stream-dictionary entry} x both xref formats, each on a fresh thread; plus the history dimension (r save/load cycles of A, then C01 for B, on one thread that does all of the library's work; the histories are run back to back on one long-lived thread per core, so each also follows all earlier ones of its thread, and a failure is confirmed on a fresh thread with the shortest suffix of its thread's sequence that reproduces it): H1 A,B nesting documents of equal shape and xref format, shapes all four, A depths 1..=64 x 4 places, B depths 1..=64 x 4 places, r in {1,2,4}, and r in {8,16,32,64} for A depths {1,2,4,8,16,32,64} and A, B in the same place; H2 every ordered pair of gen::docs documents (quick set) with equal xref format, r = 1"
     } else {
-        "all documents of gen::docs (both xref formats); plus the stream-body family: every stream body of 0..=2 bytes over all 256 byte values, alone in a document; every body prefix++core++suffix with prefix in all strings of length<=2 and suffix in all strings of length<=1 over {NUL,TAB,LF,FF,CR,SP,'x',0xFF} and core in {empty, content stream, text containing endstream/endobj, binary}, and runs of 3..=16 equal white-space bytes before/after each core, each alone and between two other objects (sparse ids, generation 2, non-empty stream dictionary); all x both xref formats; two save/load cycles each"
+        "all documents of gen::docs (both xref formats); plus the stream-body family: every stream body of 0..=2 bytes over all 256 byte values, alone in a document; every body prefix++core++suffix with prefix in all strings of length<=2 and suffix in all strings of length<=1 over {NUL,TAB,LF,FF,CR,SP,'x',0xFF} and core in {empty, content stream, text containing endstream/endobj, binary}, and runs of 3..=16 equal white-space bytes before/after each core, each alone and between two other objects (sparse ids, generation 2, non-empty stream dictionary); all x both xref formats; two save/load cycles each; plus the transport dimension: every document of gen::docs (quick set) saved to a destination that accepts at most s[i mod len] bytes on its i-th write call and loaded both from memory and through load_from from a source delivering the same pieces, s in {[1],[2],[3],[7],[64],[1,2,3,5,8,13]}; plus the nesting dimension: the leaf 7 enclosed by d = 1..=40 containers, shapes {arrays, dictionaries, alternating from an array, alternating from a dictionary} x places {only indirect object, indirect object between two others, trailer entry, stream-dictionary entry} x both xref formats, each on a fresh thread; plus the history dimension (r save/load cycles of A, then C01 for B, on one thread that does all of the library's work; the histories are run back to back on one long-lived thread per core, so each also follows all earlier ones of its thread, and a failure is confirmed on a fresh thread with the shortest suffix of its thread's sequence that reproduces it): H1 A,B nesting documents of equal shape and xref format, shapes {arrays, alternating from an array}, A depths {1,2,4,8,16,32,40} x 4 places, B depths 1..=40 x 4 places, r in {1,2,4}; H2 every ordered pair of gen::docs documents (quick set) with equal xref format, r = 1"
     }, true);
     for s in docs(thorough) {
         rep.case(!s.objects.is_empty());
@@ -149,6 +382,86 @@ pub fn roundtrip(thorough: bool) -> Report {
     }
     if total_fails > 0 { for f in rep.failures.iter_mut().filter(|f| f.obligation.starts_with("stream-body-")) { f.detail = format!("[{} stream-body documents fail in total in this run] {}", total_fails, f.detail); } }
     rep.sample(format!("stream bodies: {} enumerated, e.g. {}", bodies.len(), esc(&bodies[bodies.len() / 2])));
+
+    // the transport dimension: the destination of save_to is any std::io::Write and the source of load_from any std::io::Read;
+    // "the produced bytes" are what reached the destination
+    let quick_docs = docs(false);
+    let scheds = schedules(thorough);
+    let tjobs: Vec<(usize, usize)> = (0..quick_docs.len()).flat_map(|i| (0..scheds.len()).map(move |j| (i, j))).collect();
+    let tres: Vec<Option<(String, String)>> = tjobs.par_iter().map(|&(i, j)| check_document(&build(&quick_docs[i]), &scheds[j]).err()).collect();
+    for (&(i, j), r) in tjobs.iter().zip(tres) {
+        rep.case(!quick_docs[i].objects.is_empty());
+        if let Some((ob, d)) = r {
+            let detail = format!("saved to a destination that accepts at most {:?} bytes per write call (cyclic) and read back in the same pieces and from memory: {}; document: {}", scheds[j], d, { let mut t = describe(&quick_docs[i]); t.truncate(200); t });
+            rep.fail(&format!("short-writes-{}", ob), detail, json!({"kind": "transport", "spec": spec_json(&quick_docs[i]), "schedule": scheds[j]}), d);
+        }
+    }
+
+    // the nesting dimension, alone and as the last element of a history; everything from here on runs on fresh threads
+    let dmax: usize = if thorough { 64 } else { 40 };
+    let mut nests: Vec<Nest> = vec![];
+    for depth in 1..=dmax { for shape in 0..4u8 { for place in 0..4u8 { for xs in [false, true] { nests.push(Nest { depth, shape, place, xs }); } } } }
+    let nres = run_jobs(&nests, |n| check_history(&[Case::Nest(*n)]).err());
+    let fails_alone: std::collections::HashSet<(usize, u8, u8, bool)> = nres.iter().map(|(k, _)| { let n = &nests[*k]; (n.depth, n.shape, n.place, n.xs) }).collect();
+    let summary = if nres.is_empty() { String::new() } else {
+        let lo = nres.iter().map(|(k, _)| nests[*k].depth).min().unwrap();
+        let deepest_ok = nests.iter().filter(|n| !fails_alone.contains(&(n.depth, n.shape, n.place, n.xs))).map(|n| n.depth).max().unwrap_or(0);
+        format!("[{} of {} nesting documents fail on a fresh thread in total in this run: the shallowest failing depth is {}, the deepest depth that round-trips is {}] ", nres.len(), nests.len(), lo, deepest_ok)
+    };
+    rep.evaluations += nests.len() as u64;
+    rep.nontrivial += nests.len() as u64;
+    for (k, (ob, d)) in &nres { let n = &nests[*k]; rep.fail(&format!("nesting-{}", ob), format!("{}{}: {}", summary, n.describe_place_first(), d), history_json(&[Case::Nest(*n)]), d.clone()); }
+    rep.sample(format!("nesting: {} documents, e.g. {}", nests.len(), nests[nests.len() / 3].describe()));
+
+    // histories (A x r, B): r cycles of document A, then C01 for document B, on one fresh thread.
+    //  H1: A and B nesting documents of the same shape and xref format: all places x all places, B at every depth, A at
+    //      every depth (thorough) / at depths 2^k and dmax (quick); shapes {arrays, alternating} (quick) / all four;
+    //      r in {1,2,4}, in thorough also r in {8,16,32,64} for equal places and A at depths 2^k and dmax
+    //  H2: every ordered pair (A, B) of gen::docs documents (quick set) with the same xref format, r = 1
+    let reps: Vec<usize> = if thorough { vec![1, 2, 4, 8, 16, 32, 64] } else { vec![1, 2, 4] };
+    let coarse: Vec<usize> = (0..).map(|k| 1usize << k).take_while(|d| *d < dmax).chain([dmax]).collect();
+    let a_depths: Vec<usize> = if thorough { (1..=dmax).collect() } else { coarse.clone() };
+    let shapes: Vec<u8> = if thorough { vec![0, 1, 2, 3] } else { vec![0, 2] };
+    let mut h1: Vec<(Nest, usize, Nest)> = vec![];
+    for &shape in &shapes { for xs in [false, true] { for &da in &a_depths { for pa in 0..4u8 { for db in 1..=dmax { for pb in 0..4u8 {
+        // the repetition counts beyond 4 (thorough) are crossed with equal places and the depths 2^k, dmax of A only
+        for &r in &reps { if r > 4 && (pa != pb || !coarse.contains(&da)) { continue; } h1.push((Nest { depth: da, shape, place: pa, xs }, r, Nest { depth: db, shape, place: pb, xs })); }
+    } } } } } }
+    let mut h2: Vec<(usize, usize)> = vec![];
+    for (i, a) in quick_docs.iter().enumerate() { for (k, b) in quick_docs.iter().enumerate() { if a.xref_stream == b.xref_stream { h2.push((i, k)); } } }
+    let hist1 = |j: &(Nest, usize, Nest)| -> Vec<Case> { let mut h = vec![Case::Nest(j.0); j.1]; h.push(Case::Nest(j.2)); h };
+    let hist2 = |j: &(usize, usize)| -> Vec<Case> { vec![Case::Spec(quick_docs[j.0].clone()), Case::Spec(quick_docs[j.1].clone())] };
+    // which gen::docs documents fail on a fresh thread by themselves (like fails_alone: for the wording and for run_lanes only)
+    let spec_ids: Vec<usize> = (0..quick_docs.len()).collect();
+    let spec_fails_alone: std::collections::HashSet<usize> = run_jobs(&spec_ids, |i| check_history(&[Case::Spec(quick_docs[*i].clone())]).err()).into_iter().map(|(k, _)| k).collect();
+    let nest_alone = |n: &Nest| fails_alone.contains(&(n.depth, n.shape, n.place, n.xs));
+    let (r1, n_rep1) = run_lanes(&h1, hist1, |j| nest_alone(&j.2));
+    let (r2, n_rep2) = run_lanes(&h2, hist2, |j| spec_fails_alone.contains(&j.1));
+    rep.evaluations += (h1.len() + h2.len()) as u64;
+    rep.nontrivial += (h1.len() + h2.len()) as u64;
+    // a history whose last document fails alone too repeats a failure already reported (under nesting-* or by the first
+    // loop), so only the first few of those are reported again; all others are reported with their confirmed history
+    let n_repeat = n_rep1 + n_rep2;
+    let n_hist_only = r1.iter().chain(r2.iter()).filter(|f| f.confirmed.is_some()).count();
+    let mut hfails: Vec<(Vec<Case>, &LaneFail)> = vec![];
+    let mut taken = 0;
+    for f in &r1 { match &f.confirmed { Some(h) => hfails.push((h.clone(), f)), None => { taken += 1; if taken <= 3 { hfails.push((hist1(&h1[f.job]), f)); } } } }
+    for f in &r2 { match &f.confirmed { Some(h) => hfails.push((h.clone(), f)), None => { taken += 1; if taken <= 3 { hfails.push((hist2(&h2[f.job]), f)); } } } }
+    hfails.sort_by_key(|(h, _)| h.len());   // shortest histories first
+    let a_note = |c: &Case| -> &str { match c { Case::Nest(a) if nest_alone(a) => " (a document that does not round-trip itself, see nesting-*)", _ => "" } };
+    for (h, f) in &hfails {
+        let (ob, d) = &f.err;
+        let last = &h[h.len() - 1];
+        // the earlier cycles, run-length encoded
+        let mut earlier: Vec<(String, usize)> = vec![];
+        for c in &h[..h.len() - 1] { let t = format!("{}{}", c.describe(), a_note(c)); match earlier.last_mut() { Some((u, n)) if *u == t => *n += 1, _ => earlier.push((t, 1)) } }
+        let mut earlier_txt: String = earlier.iter().take(6).map(|(t, n)| format!("{} x [{}]", n, t)).collect::<Vec<_>>().join(", then ");
+        if earlier.len() > 6 { earlier_txt.push_str(&format!(", ... ({} runs of cycles in all, see the recorded input)", earlier.len())); }
+        let (obl, what) = if f.confirmed.is_none() { (match last { Case::Nest(_) => format!("nesting-{}", ob), Case::Spec(_) => ob.clone() }, format!("[{} histories end in a document that fails on a fresh thread by itself as well and is reported there] fails by itself as well", n_repeat)) }
+            else { (format!("after-earlier-cycles-{}", ob), format!("[{} histories end in a failure that their last document alone does not have, in total in this run] a document that round-trips on a fresh thread does not after earlier save/load cycles on the same thread{}", n_hist_only, if f.reproduced { "" } else { " (NOT reproduced on a fresh thread: recorded is everything the thread had run)" })) };
+        rep.fail(&obl, format!("{}: after the save/load cycles {}, the cycle of [{}]: {}", what, earlier_txt, last.describe(), d), history_json(h), d.clone());
+    }
+    rep.sample(format!("histories: {} over nesting documents, {} over gen::docs pairs", h1.len(), h2.len()));
     rep
 }
 
@@ -226,6 +539,14 @@ pub fn reals(thorough: bool) -> Report {
 pub fn replay(v: &Value) -> Result<(), String> {
     match v["kind"].as_str() {
         Some("doc") => check_doc(&spec_from_json(&v["spec"])).map_err(|e| format!("{}: {}", e.0, e.1)),
+        Some("transport") => {
+            let schedule: Vec<usize> = v["schedule"].as_array().cloned().unwrap_or_default().iter().map(|x| x.as_u64().unwrap_or(1) as usize).collect();
+            check_document(&build(&spec_from_json(&v["spec"])), &schedule).map_err(|e| format!("{} (schedule {:?}): {}", e.0, schedule, e.1))
+        }
+        Some("history") => {
+            let cases: Vec<Case> = v["cases"].as_array().cloned().unwrap_or_default().iter().map(Case::from_json).collect();
+            check_history(&cases).map_err(|e| format!("{} (last of a history of {} cycles): {}", e.0, cases.len(), e.1))
+        }
         Some("object") => one_object_cycle(&obj_from_json(&v["obj"])),
         Some("real") => {
             let f = f32::from_bits(v["bits"].as_u64().unwrap() as u32);
